@@ -57,88 +57,8 @@ Definition check_case (c : case) : bool :=
   && eqb_list eqb_obs (run_obs (k_cfg c) (init_state (k_cfg c)) (k_ops c)) (k_obs c)
   && engine_ok (k_cfg c) (k_Q c) (k_ops c).
 
-(* ---- the property on the implementation's outputs ------------------------------------------ *)
-
-(* lookups answered from the accepted chain / the processing set, checked against the engine's
-   own bookkeeping at the time of the call *)
-Definition chain_at_height (es : estate) (k : N) : option N :=
-  find (fun b => e_height es b =? k) (e_chain es).
-
-Definition lookup_ok (es : estate) (o : op) (r : res) : bool :=
-  match o with
-  | OGetBlock b =>
-    if memN b (e_chain es) then match r with RBlk _ b' _ _ => b' =? b | _ => false end
-    else match lookup b (e_proc es) with
-         | Some h => match r with RBlk (BH h') b' _ _ => (h' =? h) && (b' =? b) | _ => false end
-         | None => true
-         end
-  | OGetIDAtHeight k =>
-    match chain_at_height es k with
-    | Some b => match r with RId b' => b' =? b | _ => false end
-    | None => true
-    end
-  | OGetByHeight k =>
-    match chain_at_height es k with
-    | Some b => match r with RBlk _ b' _ _ => b' =? b | _ => false end
-    | None => true
-    end
-  | OLastAccepted => match r with RId b => b =? e_last es | _ => false end
-  | _ => true
-  end.
-
-Fixpoint lookups_ok (Q : N) (es : estate) (ops : list op) (obs : list (res * list event)) : bool :=
-  match ops, obs with
-  | o :: r, (rs, evs) :: obs' => lookup_ok es o rs && lookups_ok Q (eupd es o rs evs) r obs'
-  | _, _ => true
-  end.
-
-(* chain VerifyBlock / BuildBlock only on the output of a block the chain verified, built or
-   was initialised with; the verified block is a child of that parent *)
-Fixpoint verify_parents_ok (es : estate) (outs : list N) (tr : list event) : bool :=
-  match tr with
-  | [] => true
-  | EVerify p b ok :: r =>
-    memN p outs && (e_parent es b =? p) && Bool.eqb ok (negb (e_invalid es b))
-    && verify_parents_ok es (if ok then b :: outs else outs) r
-  | EBuild p b :: r => memN p outs && (e_parent es b =? p) && verify_parents_ok es (b :: outs) r
-  | EBuildNil :: _ => false
-  | _ :: r => verify_parents_ok es outs r
-  end.
-
-(* the accepted sequence is a chain: each block is the child of the previous one *)
-Fixpoint chain_from (es : estate) (prev : N) (l : list N) : bool :=
-  match l with
-  | [] => true
-  | b :: r => (e_parent es b =? prev) && (e_height es b =? e_height es prev + 1) && chain_from es b r
-  end.
-
-Fixpoint nodupb (l : list N) : bool :=
-  match l with [] => true | x :: r => negb (memN x r) && nodupb r end.
-
-Definition verified_parsed (es : estate) : list N :=
-  map fst (filter (fun x => negb (snd x)) (e_ver es)).
-
-(* C20 lifecycle, evaluated on a trace and the engine's decisions (normal operation only) *)
-Definition lifecycle_b (tr : list event) (es : estate) : bool :=
-  verify_parents_ok es [0] tr
-  (* AcceptBlock: the engine's accepted blocks, in order, once each, (all of them once the queue is drained) *)
-  && eqb_listN (accepts tr) (firstn (length (accepts tr)) (e_acc es))
-  && (N.of_nat (length (accepts tr)) + e_pending es =? N.of_nat (length (e_acc es)))
-  && chain_from es 0 (e_acc es) && nodupb (e_acc es)
-  && forallb (fun b => negb (memN b (e_rej es))) (e_acc es)
-  (* notifications one-to-one with decisions *)
-  && eqb_listN (naccepted tr) (0 :: accepts tr)
-  && eqb_listN (nrejected tr) (e_rej es)
-  && eqb_listN (nverified tr) (verified_parsed es)
-  && eqb_listN (npreaccepted tr) [] && eqb_listN (nprerejected tr) [].
-
-(* the clause refuted by F-21: every successful Verify, built blocks included, is notified *)
-Definition built_clause_b (tr : list event) (es : estate) : bool :=
-  eqb_listN (nverified tr) (map fst (e_ver es)).
-
-Definition no_sync (ops : list op) : bool :=
-  forallb (fun o => match o with OStartSync _ | OFinishSync _ => false | _ => true end) ops.
-
+(* the property itself (lifecycle_b, lookups_ok, built_clause_b) is defined next to the engine contract in
+   Model/Snow.v so that the theorems in Props/C20.v and this oracle are literally the same predicate *)
 Definition spec_ok (c : case) : bool :=
   c_ready (k_cfg c) && no_sync (k_ops c) &&
   match erun_obs (k_Q c) (init_estate (k_cfg c)) (k_ops c) (k_obs c) with
